@@ -323,3 +323,103 @@ theorem message_roundtrip (P : Profile) (hwf : ProfileWF P = true) (arch : Endia
         · cases hmb
 
 end Fit
+
+namespace Fit
+
+/-! ### fields that only round-trip from the constructor's value (fillers of a group definition) -/
+
+/-- field `pf` with value `v` goes through `writeField` / `applyField` unchanged when the message
+    under construction still holds `inv` at that position -/
+def FieldRTI (P : Profile) (dm : DefMsg) (pf : PField) (k : SlotKind) (v inv : Val) : Prop :=
+  ∀ (msg : Msg) (ts : TsRef) (part : Bytes), msg.vals[pf.sindex]? = some inv → writeField dm.arch pf k v = .ok part →
+    ∃ ts', applyField P dm true (fdOf pf) part (some msg) ts =
+      .ok (some { msg with vals := setAt msg.vals pf.sindex v }) ts'
+
+theorem FieldRT.toI {P : Profile} {dm : DefMsg} {pf : PField} {k : SlotKind} {v : Val} (h : FieldRT P dm pf k v) (inv : Val) :
+    FieldRTI P dm pf k v inv := fun msg ts part _ hp => h msg ts part hp
+
+/-- `stepFields_rebuilds` for fields in strictly increasing struct order, each of which round-trips
+    from the value `inv` the starting message holds at its position -/
+theorem stepFields_rebuildsI (P : Profile) (dm : DefMsg) (pm : PMsg) (src : Msg)
+    (fs : List PField) (parts : List Bytes) (inv : PField → Val)
+    (hsorted : fs.Pairwise (fun a b => a.sindex < b.sindex))
+    (hparts : (fs.map fun pf =>
+      match pm.layout[pf.sindex]?, src.vals[pf.sindex]? with
+      | some k, some v => writeField dm.arch pf k v
+      | _, _ => .error .panic) = parts.map .ok)
+    (hrt : ∀ pf ∈ fs, ∀ k v, pm.layout[pf.sindex]? = some k → src.vals[pf.sindex]? = some v → FieldRTI P dm pf k v (inv pf))
+    (hgf : ∀ pf ∈ fs, P.getField dm.global pf.num = some pf)
+    (msg : Msg) (st : DecSt) (hlen : msg.vals.length = src.vals.length)
+    (hinit : ∀ pf ∈ fs, msg.vals[pf.sindex]? = some (inv pf)) :
+    ∃ msg' st', stepFields P dm true (fs.map fdOf) parts (some msg) st = .ok (some msg') st' ∧
+      msg'.num = msg.num ∧ msg'.vals.length = src.vals.length ∧
+      (∀ i, (∃ pf ∈ fs, pf.sindex = i) → msg'.vals[i]? = src.vals[i]?) ∧
+      (∀ i, (¬ ∃ pf ∈ fs, pf.sindex = i) → msg'.vals[i]? = msg.vals[i]?) := by
+  induction fs generalizing parts msg st with
+  | nil =>
+    cases parts with
+    | nil => exact ⟨msg, st, rfl, rfl, hlen, (fun i h => by obtain ⟨_, h, _⟩ := h; cases h), (fun i _ => rfl)⟩
+    | cons _ _ => simp at hparts
+  | cons pf fs ih =>
+    cases parts with
+    | nil => simp at hparts
+    | cons part parts =>
+      simp only [List.map_cons, List.cons.injEq] at hparts
+      obtain ⟨hp1, hp2⟩ := hparts
+      rw [List.pairwise_cons] at hsorted
+      obtain ⟨hlt, hsorted'⟩ := hsorted
+      cases hk : pm.layout[pf.sindex]? with
+      | none => rw [hk] at hp1; cases hp1
+      | some k =>
+        cases hv : src.vals[pf.sindex]? with
+        | none => rw [hk, hv] at hp1; cases hp1
+        | some v =>
+          rw [hk, hv] at hp1
+          simp only at hp1
+          have hsi : pf.sindex < src.vals.length := by
+            cases h : src.vals[pf.sindex]? with
+            | none => rw [h] at hv; cases hv
+            | some _ => exact (List.getElem?_eq_some_iff.mp h).1
+          simp only [List.map_cons]
+          unfold stepFields
+          have hg := hgf pf (List.mem_cons_self ..)
+          have hnone : ¬ ((P.getField dm.global (fdOf pf).num).isNone = true ∧ true = true) := by
+            simp [fdOf, hg]
+          rw [if_neg hnone]
+          dsimp only
+          obtain ⟨ts', hap⟩ := hrt pf (List.mem_cons_self ..) k v hk hv msg
+            (DecSt.ts { st with n := st.n + (fdOf pf).size, crc := Crc.update st.crc part }) part
+            (hinit pf (List.mem_cons_self ..)) hp1
+          rw [hap]
+          simp only
+          have hlen2 : ({ msg with vals := setAt msg.vals pf.sindex v } : Msg).vals.length = src.vals.length := by
+            simp only [length_setAt', hlen]
+          have hinit2 : ∀ q ∈ fs, ({ msg with vals := setAt msg.vals pf.sindex v } : Msg).vals[q.sindex]? = some (inv q) := by
+            intro q hq
+            have hne : pf.sindex ≠ q.sindex := Nat.ne_of_lt (hlt q hq)
+            simp only
+            rw [getElem?_setAt_other _ _ _ _ hne]
+            exact hinit q (List.mem_cons_of_mem _ hq)
+          obtain ⟨msg', st', h1, h2, h3, h4, h5⟩ := ih parts hsorted' hp2
+            (fun p hp => hrt p (List.mem_cons_of_mem _ hp)) (fun p hp => hgf p (List.mem_cons_of_mem _ hp))
+            { msg with vals := setAt msg.vals pf.sindex v } _ hlen2 hinit2
+          refine ⟨msg', st', h1, h2, h3, ?_, ?_⟩
+          · intro i hi
+            obtain ⟨p, hp, hpi⟩ := hi
+            by_cases hin : ∃ q ∈ fs, q.sindex = i
+            · exact h4 i hin
+            · rw [h5 i hin]
+              cases hp with
+              | head =>
+                subst hpi
+                simp only
+                rw [getElem?_setAt_same _ _ _ (by rw [hlen]; exact hsi), hv]
+              | tail _ hp' => exact absurd ⟨p, hp', hpi⟩ hin
+          · intro i hi
+            have hin : ¬ ∃ q ∈ fs, q.sindex = i := fun ⟨q, hq, hqi⟩ => hi ⟨q, List.mem_cons_of_mem _ hq, hqi⟩
+            rw [h5 i hin]
+            have hne : pf.sindex ≠ i := fun e => hi ⟨pf, List.mem_cons_self .., e⟩
+            simp only
+            exact getElem?_setAt_other _ _ _ _ hne
+
+end Fit
